@@ -485,7 +485,11 @@ GRAMMAR = {
     "echo-udp": {"udp": True, "svc": "echo", "canon": [b"ping"], "tokens": [b"", b"x" * 1400]},
 }
 
-RAW = {1: b"\x00" * 64, 2: bytes(range(128, 256)), 3: b"\r\n", 4: b"A" * 4096, 5: b"\xff\xff\xff\xff\x7f\xff\xff\xff" * 4}
+RAW = {1: b"\x00" * 64, 2: bytes(range(128, 256)), 3: b"\r\n", 4: b"A" * 4096, 5: b"\xff\xff\xff\xff\x7f\xff\xff\xff" * 4,
+       # terminal escape sequences that never end: longer than a line editor's input buffer (256 bytes), with and without a line end
+       6: b"\x1b" + b"1" * 300, 7: b"\x1b[" + b"9;" * 200 + b"\r\n"}
+# the classes the dialogue model (MC_Dialogue) draws from; 6 and 7 are added to every service's core set by life.py
+RAW_MODEL = range(1, 6)
 
 ALL_SERVICES = ["adb", "counterstrike", "cwmp", "dns", "docker", "echo", "elasticsearch", "eos", "ethereum", "ftp", "http", "https",
                 "ipp", "ldap", "memcached", "ntp", "redis", "smtp", "snmp", "ssh-auth", "ssh-simulator", "telnet", "tftp", "vnc"]
